@@ -19,6 +19,11 @@ name, one WildcardChild, Value, IsPartOfHost) is modelled EXTENSIONALLY:
 Strings are split and classified by the front end (`splitURL`, `classify`, at the bottom); everything the
 theorems talk about works on `List Part`, where only equality of `String`s is used.
 Out of scope: assumed-path-parameter convergence (`assumedPathParamsEnabled`, C15).
+
+This is the trie AFTER fixes/F13b.patch (a match through a wildcard reports the wildcard's OWN path and the
+parameters collected up to it), fixes/F13c-wildcard.patch (a wildcard child is a fallback only for a URL part
+on its own side of the host/path boundary), fixes/F13d.patch (a path parameter does not accept an empty
+segment) and fixes/F13f.patch (`validateURL`: `*` only as the LAST part).
 -/
 namespace LunarVerif.UrlTree
 
@@ -112,6 +117,14 @@ def wildHead (e : List Part × Option V) : Option (Option V) :=
 /-- `WildcardChild`: `some value?` when it exists (value of the last insert through it). -/
 def wildChild? (res : Res V) : Option (Option V) := lastSome? wildHead res
 
+def wildNodeHead (e : List Part × Option V) : Option (Option V × Bool) :=
+  match e.1 with
+  | p :: _ => if p.seg = .wild then some (e.2, p.host) else none
+  | [] => none
+
+/-- `WildcardChild` with its `IsPartOfHost` (both of the last insert through it). -/
+def wildNode? (res : Res V) : Option (Option V × Bool) := lastSome? wildNodeHead res
+
 def endHead (e : List Part × Option V) : Option V :=
   match e.1 with
   | [] => e.2
@@ -136,32 +149,38 @@ def setParam (k v : String) : List (String × String) → List (String × String
   | [] => [(k, v)]
   | (k', v') :: rest => if k' = k then (k, v) :: rest else (k', v') :: setParam k v rest
 
+/-- `foundWildcardNode` with what a match through it reports: its value, the parameters collected up to it
+    (`foundWildcardParams`) and its own path (`foundWildcardPath`). -/
+structure Fallback (V : Type) where
+  value : Option V
+  params : List (String × String)
+  path : List Part
+
 /-- What happens when the current URL part has neither a usable constant nor parametric child. -/
-def stuck (fw : Option (Option V)) (params : List (String × String)) (path : List Part) (u : Part) :
-    LookupResult V :=
+def stuck (fw : Option (Fallback V)) (u : Part) : LookupResult V :=
   if u.seg.isPar then .none   -- "Lookup with path parameter, but did not find a parametric child"
   else match fw with
-    | some wv => ⟨true, wv, params, path ++ [⟨u.host, .wild⟩]⟩
+    | some f => ⟨true, f.value, f.params, f.path⟩
     | Option.none => .none
 
-/-- The loop of `lookupNode`: `res` = current node, `fw` = `foundWildcardNode` (its value),
-    `path` = `urlPath`.  No backtracking: once a constant or parametric child is entered the other
-    alternatives at that node are forgotten; only the deepest wildcard seen is kept as fallback. -/
-def lookGo (res : Res V) (fw : Option (Option V)) (params : List (String × String)) (path : List Part) :
+/-- The loop of `lookupNode`: `res` = current node, `fw` = the deepest usable wildcard seen, `path` =
+    `urlPath`.  No backtracking: once a constant or parametric child is entered the other alternatives at
+    that node are forgotten; only the deepest wildcard seen is kept as fallback. -/
+def lookGo (res : Res V) (fw : Option (Fallback V)) (params : List (String × String)) (path : List Part) :
     List Part → LookupResult V
   | [] =>
     match nodeValue res with
     | some v => ⟨true, some v, params, path⟩
     | Option.none =>
-      match wildChild? res with
-      | some wv => ⟨true, wv, params, path⟩          -- zero-segment wildcard match; path NOT extended
+      match wildNode? res with
+      | some (wv, h) => ⟨true, wv, params, path ++ [⟨h, .wild⟩]⟩     -- zero-segment wildcard match
       | Option.none =>
         match fw with
-        | some wv => ⟨true, wv, params, path⟩        -- wildcard of an ancestor; path NOT extended
+        | some f => ⟨true, f.value, f.params, f.path⟩               -- wildcard of an ancestor
         | Option.none => .none
   | u :: us =>
-    let fw' := match wildChild? res with
-      | some wv => some wv
+    let fw' := match wildNode? res with
+      | some (wv, h) => if h = u.host then some ⟨wv, params, path ++ [⟨u.host, .wild⟩]⟩ else fw
       | Option.none => fw
     let viaConst : Option String := match u.seg with
       | .lit s => if constFlag? res s = some u.host then some s else Option.none
@@ -171,11 +190,11 @@ def lookGo (res : Res V) (fw : Option (Option V)) (params : List (String × Stri
     | Option.none =>
       match parChild? res with
       | some (n, h) =>
-        if h = u.host then
+        if h = u.host ∧ u.seg ≠ .lit "" then
           let params' := if u.seg.isPar then params else setParam n u.seg.text params
           lookGo (step .par res) fw' params' (path ++ [⟨u.host, .par n⟩]) us
-        else stuck fw' params path u
-      | Option.none => stuck fw' params path u
+        else stuck fw' u
+      | Option.none => stuck fw' u
 
 /-- `URLTree.Lookup` on split parts. -/
 def lookupParts (t : Tree V) (us : List Part) : LookupResult V := lookGo t Option.none [] [] us
@@ -188,19 +207,15 @@ inductive InsertErr where
   | paramName      -- "path parameter name ... does not match existing name"
 deriving DecidableEq, Repr
 
-/-- `validateURL`: parts are inspected in order; a `*` is accepted wherever it EQUALS the last part
-    (Go compares the `urlPart` structs by value), so `a.com/*/*` is valid. -/
-def validateGo (last : Part) : List Part → Option InsertErr
+/-- `validateURL`: parts are inspected in order; a `*` is accepted only as the LAST part. -/
+def validateGo : List Part → Option InsertErr
   | [] => none
   | p :: rest =>
     if p.seg = .lit "" then some .emptyPart
-    else if p.seg = .wild ∧ p ≠ last then some .wildcardPos
-    else validateGo last rest
+    else if p.seg = .wild ∧ rest ≠ [] then some .wildcardPos
+    else validateGo rest
 
-def validateParts (ps : List Part) : Option InsertErr :=
-  match ps.getLast? with
-  | some l => validateGo l ps
-  | none => none
+def validateParts (ps : List Part) : Option InsertErr := validateGo ps
 
 /-- The walk of `insertWithConvergenceIndication`; returns the EFFECTIVE pattern (the key path really
     taken, with the names/redirects the existing nodes impose).  The walk stops at the first `*`:
